@@ -1,4 +1,4 @@
-"""Comparison sites of block_iter_seek (T-cmp rows 7-11), shared by C02.R4 and C03.R4."""
+"""In-block search (T-cmp rows 7-11), shared by C02.R4 and C03.R4: row 7 here, rows 8-11 in rules/seekrule.py."""
 from .common import *
 
 U = "mtbl/block.c"
@@ -29,110 +29,7 @@ def check(ctx, res, rule_search, rule_shortcut):
     if n7 == 0:
         raise BrokenAnalysis("compare_restart_point: no normal path")
 
-    sites = compare_sites(prog, cg, f, {"compare_restart_point"})
-    seen = set()
-    for B, call, acc in sites:
-        loopi = in_loop_cond(f, B)
-        if loopi is not None and B.termk in ("WhileStmt", "ForStmt", "DoStmt"):
-            # row 8 gallop: keep galloping iff LT
-            cont = acc if loopi == 0 else ALL - acc
-            seen.add(8)
-            res.check(cont == frozenset((LT,)), rule_shortcut, site(f, "gallop:continue"),
-                      "galloping continues iff restart key < target", "galloping continues on %s" % sorted(cont), f.loc(B.cond))
-            acts, _ = edge_actions(f, B, loopi)
-            st = [canon(a) for a in acts if a["k"] == "BinaryOperator" and a.get("op") == "="]
-            res.check(any(s.startswith("(left=") for s in st), rule_shortcut, site(f, "gallop:left:=i"),
-                      "a restart key below the target becomes the new left bound", "gallop body does not raise left (%s)" % st, f.loc(B.cond))
-        else:
-            # row 9 bisection
-            seen.add(9)
-            t_acts, _ = edge_actions(f, B, 0)
-            f_acts, _ = edge_actions(f, B, 1)
-            ts = [canon(a) for a in t_acts if a["k"] == "BinaryOperator"]
-            fs = [canon(a) for a in f_acts if a["k"] == "BinaryOperator"]
-            if any(s.startswith("(left=") for s in fs) and any(s.startswith("(right=") for s in ts):
-                acc, ts, fs = ALL - acc, fs, ts
-            res.check(acc == frozenset((LT,)) and "(left=mid)" in ts and "(right=(mid-#1))" in fs, rule_search, site(f, "bisection"),
-                      "left := mid iff restart[mid] < target, else right := mid-1",
-                      "bisection moves left on %s with %s / otherwise %s" % (sorted(acc), ts, fs), f.loc(B.cond))
-    sites = compare_sites(prog, cg, f, {"bytes_compare"})
-    inits = decl_inits(f)
-    dom = CFG.dominators(f)
-    short = {}
-    for B, call, acc in sites:
-        a = [canon(x) for x in call_args(call)]
-        cur_vs_target = a[0].startswith("ubuf_data(bi->key") and a[2] == f.params[1]["name"] and a[3] == f.params[2]["name"]
-        mirrored = a[2].startswith("ubuf_data(bi->key") and a[0] == f.params[1]["name"]
-        if not (cur_vs_target or mirrored):
-            res.bad(rule_search, site(f, "cmp-operands"), "in-block search compares %s" % a, f.loc(call))
-            continue
-        if mirrored:
-            acc = APE.mirror(acc)
-        acts, how = edge_actions(f, B, 0)
-        holder = f.block_of(call)
-        in_scan = any(B.id in CFG.reachable_from(f, s) for s in B.succs if s is not None)
-        if in_scan:
-            # row 11 linear scan: stop iff EQ/GT
-            seen.add(11)
-            stop = acc if how == "return" else ALL - acc
-            res.check(stop == frozenset((EQ, GT)), rule_search, site(f, "linear-scan:stop"),
-                      "scan stops at the first key >= target", "scan stops on %s" % sorted(stop), f.loc(B.cond))
-        else:
-            short[B.id] = (B, acc, acts, how, call)
-    # row 10
-    if short:
-        seen.add(10)
-        eq_ret = lt_cont = False
-        guard_ok = True
-        # cases already decided by a dominating site on the same comparison that returned
-        decided = {}
-        for bid, (B, acc, acts, how, call) in short.items():
-            if how == "return":
-                decided[bid] = acc
-            elif edge_actions(f, B, 1)[1] == "return":
-                decided[bid] = ALL - acc
-        for bid, (B, acc, acts, how, call) in list(short.items()):
-            for ob, dacc in decided.items():
-                if ob != bid and ob in dom.get(bid, ()):
-                    acc = acc - dacc
-            short[bid] = (B, acc, acts, how, call)
-        for bid, (B, acc, acts, how, call) in short.items():
-            if bid in decided and decided[bid] == frozenset((EQ,)):
-                eq_ret = True
-            sts = [canon(x) for x in acts if x["k"] == "BinaryOperator"]
-            if acc == frozenset((LT,)) and "(from_start=#0)" in sts:
-                lt_cont = True
-            elif "(from_start=#0)" in sts and acc != frozenset((LT,)):
-                res.bad(rule_shortcut, site(f, "shortcut:continue-from-current"),
-                        "search continues from the current entry although it may not be before the target (%s)" % sorted(acc), f.loc(B.cond))
-                lt_cont = None
-            # guard: dominated by the true edge of start_ri == left
-            hb = f.block_of(call)
-            g_ok = False
-            for G in cond_blocks(f):
-                c = canon(G.cond)
-                if c in ("(start_ri==left)", "(left==start_ri)") and G.succs[0] is not None:
-                    if G.succs[0] in dom.get(hb.id, ()) or G.succs[0] == hb.id:
-                        ini = inits.get("start_ri")
-                        if ini is not None and canon(ini) == "bi->restart_index":
-                            g_ok = True
-            guard_ok = guard_ok and g_ok
-        res.check(eq_ret, rule_shortcut, site(f, "shortcut:EQ-returns"), "current entry equal to the target: stay", "EQ does not return at once")
-        if lt_cont is not None:
-            res.check(lt_cont, rule_shortcut, site(f, "shortcut:LT-continues"), "current entry before the target: scan on from it",
-                      "the LT case does not continue from the current entry")
-        res.check(guard_ok, rule_shortcut, site(f, "shortcut:guard"),
-                  "shortcut considered only when the located run equals the run of the current entry (restart index at entry)",
-                  "the current-entry shortcut is not guarded by start_ri == left (start_ri = restart index at entry)")
-        # from_start decides the restart: seek_to_restart_point(bi, left) iff from_start
-        ok_restart = False
-        for G in cond_blocks(f):
-            if canon(G.cond) == "from_start":
-                acts, _ = edge_actions(f, G, 0)
-                if any(is_call(x, "seek_to_restart_point") and canon(call_args(x)[1]) == "left" for x in acts):
-                    ok_restart = True
-        res.check(ok_restart, rule_shortcut, site(f, "restart-of-run"), "otherwise the scan restarts at the located run's restart point",
-                  "no restart at restart point `left` when not continuing from the current entry")
-    missing = {8, 9, 10, 11} - seen
-    if missing:
-        raise BrokenAnalysis("block_iter_seek: comparison sites for T-cmp rows %s not recognised" % sorted(missing))
+    # rows 8-11 (galloping, bisection, continue-from-current shortcut, linear scan) are decided together, in the order
+    # domain, for every small block, iterator state and target position: rules/seekrule.py
+    from . import seekrule
+    seekrule.check(ctx, res, rule_search, rule_shortcut)
